@@ -12,16 +12,18 @@ import (
 )
 
 // Native side of C27: a real on-disk db.DB (WAL mode) with three tables foo, bar, foobar of nc
-// columns c0.. without a declared type (no affinity: SQLite keeps integer, real, text, blob and
+// columns c00.. without a declared type (no affinity: SQLite keeps integer, real, text, blob and
 // NULL exactly as bound). A harness "change" is one SQL statement with bound values on the single
 // read-write connection of the db.DB, so SQLite itself calls the callbacks that
 // RegisterPreUpdateHook / RegisterCommitHook registered. Rows an UPDATE / DELETE needs are put in
 // place through a SECOND connection: no hook of the connection under test sees them.
+// A change of a table definition is the real ALTER TABLE .. ADD COLUMN / DROP COLUMN or DROP TABLE +
+// CREATE TABLE, also on the read-write connection; the SQL of later changes names the columns the
+// table then has (verifC27World).
 
 type verifC27Real struct {
 	dir  string
 	side *sql.DB
-	nc   int
 }
 
 var verifC27Reals = map[*DB]*verifC27Real{}
@@ -30,6 +32,7 @@ func init() {
 	verifC27OpenNative = verifC27OpenReal
 	verifC27SetupNative = verifC27SetupReal
 	verifC27FireNative = verifC27FireReal
+	verifC27DDLNative = verifC27DDLReal
 	verifC27TxNative = func(d *DB, what string) bool {
 		_, err := d.rwDB.Exec(what)
 		return err == nil
@@ -43,12 +46,9 @@ func init() {
 	}
 }
 
-func verifC27ColList(nc int) string {
-	cols := make([]string, nc)
-	for j := range cols {
-		cols[j] = fmt.Sprintf("c%d", j)
-	}
-	return strings.Join(cols, ",")
+// the table's columns as the harness has defined them (verifC27World)
+func verifC27ColList(table int) string {
+	return strings.Join(verifC27World.cols[table], ",")
 }
 
 func verifC27OpenReal(nc int) *DB {
@@ -60,8 +60,8 @@ func verifC27OpenReal(nc int) *DB {
 	if err != nil {
 		panic(err)
 	}
-	for _, t := range verifC27Tables {
-		if _, err := d.rwDB.Exec(`CREATE TABLE "` + t + `" (` + verifC27ColList(nc) + `)`); err != nil {
+	for t, name := range verifC27Tables {
+		if _, err := d.rwDB.Exec(`CREATE TABLE "` + name + `" (` + verifC27ColList(t) + `)`); err != nil {
 			panic(err)
 		}
 	}
@@ -70,8 +70,40 @@ func verifC27OpenReal(nc int) *DB {
 		panic(err)
 	}
 	side.SetMaxOpenConns(1)
-	verifC27Reals[d] = &verifC27Real{dir: dir, side: side, nc: nc}
+	verifC27Reals[d] = &verifC27Real{dir: dir, side: side}
 	return d
+}
+
+// verifC27DDLReal: the real statements, on the write connection of the db.DB (where rqlite runs
+// every write). false = SQLite did not carry a statement out (the commit hook refused the commit).
+func verifC27DDLReal(d *DB, table, kind int) bool {
+	name := verifC27Tables[table]
+	cols := verifC27World.cols[table]
+	after := verifC27World
+	if !after.apply(table, kind) {
+		panic("verif C27: impossible change of a table definition")
+	}
+	var stmts []string
+	switch kind {
+	case vdAddColumn:
+		stmts = []string{`ALTER TABLE "` + name + `" ADD COLUMN ` + after.cols[table][len(cols)]}
+	case vdDropFirst:
+		stmts = []string{`ALTER TABLE "` + name + `" DROP COLUMN ` + cols[0]}
+	case vdDropLast:
+		stmts = []string{`ALTER TABLE "` + name + `" DROP COLUMN ` + cols[len(cols)-1]}
+	case vdRecreateWider, vdRecreateNarrower:
+		stmts = []string{`DROP TABLE "` + name + `"`, `CREATE TABLE "` + name + `" (` + strings.Join(after.cols[table], ",") + `)`}
+	}
+	ok := true
+	for _, q := range stmts {
+		if _, err := d.rwDB.Exec(q); err != nil {
+			if !strings.Contains(err.Error(), "constraint failed") {
+				panic("verif C27: " + q + ": " + err.Error())
+			}
+			ok = false
+		}
+	}
+	return ok
 }
 
 func verifC27Args(first []any, cells []verifC27Cell, last ...any) []any {
@@ -97,28 +129,39 @@ func verifC27SetupReal(d *DB, ev *verifC27Ev, wipe bool) {
 	if ev.op == voInsert {
 		return
 	}
-	if len(ev.old) != r.nc {
+	cells := ev.old
+	if ev.seed != nil {
+		cells = ev.seed
+	}
+	nc := len(verifC27World.cols[ev.table])
+	if len(cells) != nc {
 		panic("verif C27: row width differs from the table's")
 	}
-	q := `INSERT INTO "` + t + `"(rowid,` + verifC27ColList(r.nc) + `) VALUES(` + verifC27Marks(r.nc+1) + `)`
-	if _, err := r.side.Exec(q, verifC27Args([]any{ev.oldID}, ev.old)...); err != nil {
+	q := `INSERT INTO "` + t + `"(rowid,` + verifC27ColList(ev.table) + `) VALUES(` + verifC27Marks(nc+1) + `)`
+	if _, err := r.side.Exec(q, verifC27Args([]any{ev.oldID}, cells)...); err != nil {
 		panic(err)
 	}
 }
 
 func verifC27FireReal(d *DB, ev *verifC27Ev) bool {
-	r := verifC27Reals[d]
 	t := verifC27Tables[ev.table]
+	cols := verifC27World.cols[ev.table]
 	var res sql.Result
 	var err error
 	switch ev.op {
 	case voInsert:
-		q := `INSERT INTO "` + t + `"(rowid,` + verifC27ColList(r.nc) + `) VALUES(` + verifC27Marks(r.nc+1) + `)`
+		if len(ev.new) != len(cols) {
+			panic("verif C27: row width differs from the table's")
+		}
+		q := `INSERT INTO "` + t + `"(rowid,` + verifC27ColList(ev.table) + `) VALUES(` + verifC27Marks(len(cols)+1) + `)`
 		res, err = d.rwDB.Exec(q, verifC27Args([]any{ev.newID}, ev.new)...)
 	case voUpdate:
+		if len(ev.new) != len(cols) {
+			panic("verif C27: row width differs from the table's")
+		}
 		sets := []string{"rowid=?"}
-		for j := 0; j < r.nc; j++ {
-			sets = append(sets, fmt.Sprintf("c%d=?", j))
+		for _, c := range cols {
+			sets = append(sets, c+"=?")
 		}
 		q := `UPDATE "` + t + `" SET ` + strings.Join(sets, ",") + ` WHERE rowid=?`
 		res, err = d.rwDB.Exec(q, verifC27Args([]any{ev.newID}, ev.new, ev.oldID)...)
@@ -164,7 +207,7 @@ func TestVerifC27Calibrate(t *testing.T) {
 						vals[k] = int64(rng.Uint64())
 					}
 				}
-				ch("band", 2)
+				ch("band", 3)
 				ch("idsOnly", 2)
 				ch("columns", 3)
 				if name == "VerifC27Normalize" {
@@ -193,6 +236,14 @@ func TestVerifC27Calibrate(t *testing.T) {
 				for i := 0; i < 3; i++ {
 					prefixes = append(prefixes, fmt.Sprintf("e%d", i))
 					ch(fmt.Sprintf("tx%d.end", i), 3)
+					switch {
+					case tier == "quick":
+						ch(fmt.Sprintf("tx%d.ddl", i), 4)
+					case i == 1:
+						ch(fmt.Sprintf("tx%d.ddl", i), len(verifC27ChainDDL))
+					default:
+						ch(fmt.Sprintf("tx%d.ddl", i), 3)
+					}
 					ch(fmt.Sprintf("tx%d.changes", i), 3)
 					for j := 0; j < 2; j++ {
 						prefixes = append(prefixes, fmt.Sprintf("tx%d.e%d", i, j))
@@ -201,11 +252,14 @@ func TestVerifC27Calibrate(t *testing.T) {
 				for _, p := range prefixes {
 					ch(p+".op", 3)
 					ch(p+".table", 3)
+					ch(p+".fooOrBar", 2)
+					ch(p+".ddl", vdKinds)
+					ch(p+".ddlTable", 2)
 					num(p + ".oldID")
 					num(p + ".newID")
 					for _, side := range []string{".old", ".new"} {
 						ch(p+side+".rot", vvDriverVariants)
-						for j := 0; j < 3; j++ {
+						for j := 0; j < 5; j++ {
 							ch(fmt.Sprintf("%s%s.var%d", p, side, j), vvDriverVariants)
 							num(fmt.Sprintf("%s%s%d.i", p, side, j))
 							for b := 0; b < 2; b++ {
